@@ -687,9 +687,11 @@ func (f *Frugal) FindStruct(typ *Type) *Struct {
 		frugal = frugalInclude
 	}
 
-	for _, s := range frugal.Structs {
-		if paramName == s.Name {
-			return s
+	for _, structs := range [][]*Struct{frugal.Structs, frugal.Unions, frugal.Exceptions} {
+		for _, s := range structs {
+			if paramName == s.Name {
+				return s
+			}
 		}
 	}
 
